@@ -687,8 +687,11 @@ class PendingAssign(PendingNode[Assign | AnnAssign]):
         else:
             assign_targets = self.node.targets
 
-        if len(assign_targets) > 1:
+        if len(assign_targets) > 1 or isinstance(
+            assign_targets[0], (Attribute, Subscript)
+        ):
             # chained assignment (a = b = f()): the value runs only once
+            # f().x = g(): the value runs before the target expressions
             tmp_value_name = Name(id=ol_name(OL_ASSIGN_TMP))
             return_list.append(NamedExpr(target=tmp_value_name, value=assign_value))
             assign_value = tmp_value_name
